@@ -9,12 +9,13 @@ import SquidModel.Properties.C14
 #print axioms SquidModel.C14.history_sound_partial
 #print axioms SquidModel.C14.step_sound_partial
 #print axioms SquidModel.C14.foreign_validator_counterexample
-#print axioms SquidModel.C14.content_length_counterexample
+#print axioms SquidModel.C14.content_length_pre_fix
+#print axioms SquidModel.C14.content_length_304_ignored
 #print axioms SquidModel.C14.if_match_stale_if_error_counterexample
 #print axioms SquidModel.C14.missed_304_after_revalidation
 #print axioms SquidModel.C14.updated_headers_are_the_304s
 #print axioms SquidModel.C14.unnamed_headers_unchanged
 #print axioms SquidModel.C14.exempt_headers_unchanged
 #print axioms SquidModel.C14.stored_body_unchanged
-#print axioms SquidModel.C14.served_body_unchanged_partial
-#print axioms SquidModel.C14.served_body_changed_counterexample
+#print axioms SquidModel.C14.served_body_unchanged
+#print axioms SquidModel.C14.served_body_changed_pre_fix
